@@ -49,6 +49,8 @@ case "$MODE" in
   shimsan) OPT="-O1 -DVF_SHIM=1 -fsanitize=address,undefined -fno-sanitize=shift-base -fno-sanitize-recover=all"; LDX="-fsanitize=address,undefined" ;;
   *) echo "bad mode $MODE" >&2; exit 2 ;;
 esac
+# extra flags of a particular check (e.g. -include <its own hook header>, -DVF_C01_TRACE); also recorded in <scratch>/cflags
+OPT="$OPT ${VF_EXTRA_CFLAGS:-}"
 mkdir -p "$SCR/obj"
 compile_one() {
   f="$1"; o="$SCR/obj/$(echo "$f" | tr '/' '_').o"
